@@ -34,6 +34,31 @@ func c07Check(c *hist.Case, r *evid.Rec) []evid.Disc {
 		maxQ = *c.Cfg.MaximumQos
 	}
 	var ds []evid.Disc
+	// bursts: the client's own QoS 1 publishes are answered while somebody else's messages are being written to it
+	for _, s := range run.Steps {
+		if s.A.Kind != "burst" || s.Skipped {
+			continue
+		}
+		for tag, ti := range run.Tags {
+			if ti.Step != s.I || ti.CID != "c0" || ti.QoS != 1 || ti.Will {
+				continue
+			}
+			p := run.Peers[ti.Peer]
+			if (p.ClosedAt >= 0 && p.ClosedAt <= s.I) || p.BlindAt(s.I) {
+				continue
+			}
+			n, _ := countObs(s, p.ID, refmqtt.PUBACK, ti.PID)
+			r.Label("answered-under-traffic")
+			r.NonTrivial(fmt.Sprintf("%s|%d|%d", caseKey(c), s.I, tag))
+			if n != 1 {
+				cls := "missing"
+				if n > 1 {
+					cls = "duplicate"
+				}
+				ds = append(ds, evid.D("C07-"+cls+"-PUBACK-under-traffic", "step %d: %s published m%d (QoS 1, id %d) while %d messages of another client were being delivered to it; %d PUBACK(s) with that identifier arrived", s.I, p.CID, tag, ti.PID, len(s.Obs), n))
+			}
+		}
+	}
 	for _, s := range run.Steps {
 		if s.Skipped || s.Peer < 0 || s.Sent == nil {
 			continue
@@ -240,14 +265,46 @@ func c07Gen(rt *rapid.T) *hist.Case {
 	return c
 }
 
+// c07GenBusy: requests answered while the requester is being written to. A v5 client with a small Maximum Packet Size
+// subscribes; in one step it publishes QoS 1 messages of its own while another client floods it with small and oversize
+// messages over a slow connection with a small write buffer; every one of its publishes needs its PUBACK.
+func c07GenBusy(rt *rapid.T) *hist.Case {
+	c := &hist.Case{}
+	c.Cfg.WriteDelayUS = pick(rt, "write-delay", []int{20, 50, 100})
+	c.Cfg.WriteBuf = pick(rt, "writebuf", []int{0, 256, 2048})
+	mp := uint32(pick(rt, "maxpkt", []int{64, 100, 0}))
+	con := hist.Action{Kind: "connect", Client: 0, Version: 5, Clean: true, AutoAck: true}
+	if mp > 0 {
+		con.MaxPkt = &mp
+	}
+	c.Actions = append(c.Actions, con,
+		hist.Action{Kind: "connect", Client: 1, Version: 4, Clean: true, AutoAck: true},
+		hist.Action{Kind: "subscribe", Client: 0, Filters: []refmqtt.Filter{{Filter: "a/#", QoS: 0}}})
+	for i, n := 0, rapid.IntRange(1, 4).Draw(rt, "bursts"); i < n; i++ {
+		pads := rapid.SliceOfN(rapid.SampledFrom([]int{0, 0, 10, 300}), 1, 4).Draw(rt, "pads")
+		c.Actions = append(c.Actions, hist.Action{Kind: "burst", Burst: []hist.BurstItem{
+			{Client: 1, Topic: "a/x", QoS: 0, Count: rapid.IntRange(2, 12).Draw(rt, "flood"), Pads: pads},
+			{Client: 0, Topic: "b/y", QoS: 1, Count: rapid.IntRange(1, 4).Draw(rt, "own")}}})
+		if rapid.Bool().Draw(rt, "ping") {
+			c.Actions = append(c.Actions, hist.Action{Kind: "ping", Client: 0})
+		}
+	}
+	return c
+}
+
 func TestC07(t *testing.T) {
-	r := evid.New("C07", "rapid: one client (v3.1/v3.1.1/v5) plus an acknowledging bystander; requests: PUBLISH QoS 0-2 to valid, wildcard, $SYS, $share, unauthorised topics with fresh / repeated / colliding packet identifiers (small identifier pool, broker-assigned identifiers left outstanding), DUP retransmissions, PUBREL for known and unknown identifiers with reason 0x00/0x92, SUBSCRIBE/UNSUBSCRIBE with 1-4 filters (valid, invalid, denied, shared+NoLocal, duplicates) and colliding identifiers, PINGREQ; only an ACL-answering hook is installed; oracle: after quiescence the connection is closed, or exactly one response of the required type with the request's identifier arrived, SUBACK/UNSUBACK with one code per filter, failure codes exactly for refused filters; non-trivial = request with rejected topic, explicit/colliding identifier, PUBREL, or mixed-outcome SUBSCRIBE; distinct by (history, step)")
+	r := evid.New("C07", "rapid: one client (v3.1/v3.1.1/v5) plus an acknowledging bystander; requests: PUBLISH QoS 0-2 to valid, wildcard, $SYS, $share, unauthorised topics with fresh / repeated / colliding packet identifiers (small identifier pool, broker-assigned identifiers left outstanding), DUP retransmissions, PUBREL for known and unknown identifiers with reason 0x00/0x92, SUBSCRIBE/UNSUBSCRIBE with 1-4 filters (valid, invalid, denied, shared+NoLocal, duplicates) and colliding identifiers, PINGREQ; only an ACL-answering hook is installed; one case in six instead answers the client's QoS 1 publishes while another client floods it with small and oversize messages over a slow connection (write latency, small write buffer, Maximum Packet Size 64/100); oracle: after quiescence the connection is closed, or exactly one response of the required type with the request's identifier arrived, SUBACK/UNSUBACK with one code per filter, failure codes exactly for refused filters; non-trivial = request with rejected topic, explicit/colliding identifier, PUBREL, or mixed-outcome SUBSCRIBE; distinct by (history, step)")
 	defer r.Finish(t)
 	if evid.ReplayMode() {
 		evid.Replay(t, r, replayPath(), c07Check)
 		return
 	}
 	evid.Run(t, r, func(rt *rapid.T) *hist.Case {
+		if rapid.IntRange(0, 5).Draw(rt, "busy") == 0 {
+			c := c07GenBusy(rt)
+			r.Sample(c.Summary())
+			return c
+		}
 		c := c07Gen(rt)
 		r.Sample(c.Summary())
 		return c
